@@ -108,13 +108,22 @@ def num_text(ctx, lexpr):
             return None
 
         S = sim.Sim([lexpr], hooks={"call": hook}, inline=inl, max_paths=2000, max_depth=6, max_visits=4)
+        S.structural_vec = True
         try:
-            paths = S.run(f)
+            # a function that prints the elements of a byte slice is evaluated on a slice of three elements
+            args = {i: sim.Ref([sim.Bytes((7, 8, 9))], 0, ()) for i in range(1, f.arg_count + 1) if f.local_ty(i) == "&[u8]"}
+            paths = S.run(f, args=args)
         except sim.Limit:
             r.violation(f.path, "inexact", "path limit while evaluating %s" % f.path, f.loc())
             continue
         bad = None
         npaths = 0
+        from .. import cfg
+        loop_blocks = set()
+        for body in cfg.natural_loops(f).values():
+            loop_blocks |= set(body)
+        in_loop = any(bi in loop_blocks for bi, t in f.calls()
+                      if any(t["callee"].get("path", "").startswith(x) for x in FORMAT) or F.callee_names(t) & set(FORMAT))
         for p in paths:
             if p.end == "panic":
                 continue
@@ -127,22 +136,66 @@ def num_text(ctx, lexpr):
                 if any(n.endswith("::flush") for n in e[1]):
                     continue
                 a = [x for x in e[6][1:]]
-                writes.append("number-text" if len(a) == 1 and isinstance(a[0], Opq) and a[0].root == "formatted-number"
-                              else repr(a)[:60])
+                if len(a) == 1 and isinstance(a[0], Opq) and a[0].root == "formatted-number":
+                    writes.append("number-text")
+                elif len(a) == 1 and isinstance(a[0], sim.Bytes):
+                    writes.append(bytes(x & 255 for x in a[0].b))
+                elif len(a) == 1 and isinstance(a[0], int) and 0 <= a[0] < 256:
+                    writes.append(bytes([a[0]]))
+                else:
+                    writes.append(repr(a)[:60])
             npaths += 1
             # a path that fails in the sink may stop early; a completed one wrote the text exactly once
             ok_ret = p.end == "return" and isinstance(p.ret, sim.Adt) and p.ret.adt.endswith("Result") and p.ret.variant == 0
-            if any(w != "number-text" for w in writes) or len(writes) > 1 or (ok_ret and len(writes) != 1):
-                bad = writes
+            writes = [w for w in writes if w != b""]
+            k = [i for i, w in enumerate(writes) if w == "number-text"]
+            # one number per call, or one per turn of a loop over elements (the octets of a byte vector)
+            if (len(k) > 1 or (ok_ret and len(k) != 1)) and not in_loop:
+                bad = (writes, "the formatted text is written %d times" % len(k))
+                break
+            # what is written around the text in the same function (the delimiters of a byte vector, a separator) must
+            # keep it a token of its own: the write before ends, the write after starts with a byte that ends a number
+            for i in k:
+                for w, pos, what in ((writes[i - 1] if i > 0 else None, -1, "before"),
+                                     (writes[i + 1] if i + 1 < len(writes) else None, 0, "after")):
+                    if w is None:
+                        continue
+                    if not isinstance(w, bytes):
+                        bad = (writes, "%s is written directly %s the text" % (
+                            "another number" if w == "number-text" else "something that is not a constant", what))
+                        break
+                    ends = _number_ends(lexpr)
+                    if ends is None or w[pos] not in ends:
+                        bad = (writes, "the byte %r written directly %s the text does not end a number token" % (bytes([w[pos]]), what))
+                        break
+                if bad:
+                    break
+            if bad:
                 break
         if bad is None and npaths:
-            r.ok("%s writes the formatted text exactly once on each of %d path(s)" % (f.path, npaths), f)
+            r.ok("%s writes the formatted text exactly once on each of %d path(s), set off from anything else it writes" % (f.path, npaths), f)
         elif bad is None:
             r.violation(f.path, "inexact", "no path through %s could be evaluated" % f.path, f.loc())
         else:
-            r.violation(f.path, "num-text", "%s can write %s to the sink: the printed number is no longer the shortest text "
+            r.violation(f.path, "num-text", "%s can write %s to the sink (%s): the printed number is no longer the shortest text "
                                             "itoa / ryu produced and may not read back as the same number (e.g. `1e21.0`)"
-                        % (f.path, bad), f.loc())
+                        % (f.path, [w if isinstance(w, str) else w.decode("latin1") for w in bad[0]], bad[1]), f.loc())
+
+
+_ENDS = {}
+
+
+def _number_ends(lexpr):
+    """Bytes that end a decimal literal for the lexer (evaluated on its own code), plus the openers."""
+    if id(lexpr) not in _ENDS:
+        from .. import classes
+        pt = lexpr.fn("parse::Parser::<R>::parse_token")
+        try:
+            ends = classes.number_end_class(lexpr, pt) if pt is not None else None
+        except classes.Inexact:
+            ends = None
+        _ENDS[id(lexpr)] = None if ends is None else {b for b in ends if b is not None}
+    return _ENDS[id(lexpr)]
 
 
 def octet_range(ctx, lexpr):
